@@ -1,12 +1,13 @@
 (* C10 Exec: checkers evaluated by vm_compute on (call history, observed behaviour of the Go wheel). *)
 From God Require Export Base.Prelude C10.Model.
-From God Require Import C10.Spec.
+From God Require Import C10.Spec C10.SafeMap.
+From GodGen Require C10_Gen.
 
 (* what the driver saw for one call: error (0 nil, 1 ErrClosed, 2 ErrArgument, 3 panic), the
    (key,value) callbacks run after it in callback order, the pairs handed to the drain function *)
 Record obs := mkObs { ob_err : nat; ob_fired : list (nat * nat); ob_drained : list (nat * nat) }.
 
-Record case := mkcase {
+Record wcase := mkcase {
   c_interval : Z;            (* nanoseconds *)
   c_slots : Z;
   c_calls : list call;
@@ -46,7 +47,7 @@ Fixpoint model_run (w : wheel) (cs : list call) (os : list obs) : bool :=
   | _, _ => false
   end.
 
-Definition model_ok (c : case) : bool :=
+Definition wheel_model_ok (c : wcase) : bool :=
   match new_wheel (c_interval c) (c_slots c) true with
   | None => negb (c_new_ok c) && nil_b (c_obs c)
   | Some s => c_new_ok c && model_run (mkW s false) (c_calls c) (c_obs c)
@@ -101,6 +102,49 @@ Fixpoint spec_run (I : positive) (sp : sst) (closed drained : bool) (cs : list c
   | _, _ => false
   end.
 
-Definition spec_ok (c : case) : bool :=
+Definition wheel_spec_ok (c : wcase) : bool :=
   if (c_interval c <=? 0)%Z || (c_slots c <=? 0)%Z then true     (* outside "for every slot count" *)
   else c_new_ok c && spec_run (Z.to_pos (c_interval c)) sinit false false (c_calls c) (c_obs c).
+
+
+(* ---- SafeMap histories (the timers index): observed Gets and internal counters ---- *)
+Inductive smop :=
+| OPut (k v : N) | ODel (k : N) | OChurn (k n : N)
+| OGet (k : N) (seen : option N)                  (* observed result of Get *)
+| ODump (dold dnew lold lnew size : N).           (* observed deletionOld, deletionNew, len(dirtyOld), len(dirtyNew), Size() *)
+
+Definition sm_maxd : N := Z.to_N C10_Gen.maxDeletion.
+Definition sm_copyt : N := Z.to_N C10_Gen.copyThreshold.
+
+Definition optN_eqb (a b : option N) : bool := option_eqb N.eqb a b.
+
+(* the transcription of safemap.go reproduces every observed Get AND the internal counters *)
+Fixpoint sm_model_run (s : sm) (ops : list smop) : bool :=
+  match ops with
+  | [] => true
+  | OPut k v :: r => sm_model_run (sm_put sm_maxd s k v) r
+  | ODel k :: r => sm_model_run (sm_del sm_maxd sm_copyt s k) r
+  | OChurn k n :: r => sm_model_run (sm_step sm_maxd sm_copyt s (SChurn k n)) r
+  | OGet k seen :: r => optN_eqb (sm_get s k) seen && sm_model_run s r
+  | ODump a b c d e :: r =>
+      N.eqb (del_old s) a && N.eqb (del_new s) b && N.eqb (len (old s)) c && N.eqb (len (new s)) d &&
+      N.eqb (len (old s) + len (new s)) e && sm_model_run s r
+  end.
+
+(* the property-level statement: SafeMap answers like a plain map (what the wheel's index relies on) *)
+Fixpoint sm_spec_run (m : amap) (ops : list smop) : bool :=
+  match ops with
+  | [] => true
+  | OPut k v :: r => sm_spec_run (aput k v m) r
+  | ODel k :: r => sm_spec_run (adel k m) r
+  | OChurn k n :: r => sm_spec_run (spec_step m (SChurn k n)) r
+  | OGet k seen :: r => optN_eqb (look k m) seen && sm_spec_run m r
+  | ODump _ _ _ _ size :: r => N.eqb (len m) size && sm_spec_run m r
+  end.
+
+Inductive case := CW (w : wcase) | CSM (ops : list smop).
+
+Definition model_ok (c : case) : bool :=
+  match c with CW w => wheel_model_ok w | CSM ops => sm_model_run sm_empty ops end.
+Definition spec_ok (c : case) : bool :=
+  match c with CW w => wheel_spec_ok w | CSM ops => sm_spec_run [] ops end.
